@@ -8,6 +8,7 @@ import (
 	"strings"
 	"sync"
 	"sync/atomic"
+	"syscall"
 	"time"
 
 	"github.com/bluenviron/gomavlib/v3"
@@ -50,6 +51,7 @@ func (p *player) buildNode() *gomavlib.Node {
 		case "custom":
 			p.ctls[i] = newCtl(p, i)
 			p.ctls[i].drain = e.Drain
+			p.ctls[i].errWithData = e.ErrWithData
 			n.Endpoints = append(n.Endpoints, gomavlib.EndpointCustom{ReadWriteCloser: p.ctls[i]})
 		case "tcp_server":
 			p.addrs[i] = freePort("tcp")
@@ -68,9 +70,16 @@ func (p *player) buildNode() *gomavlib.Node {
 			if e.LMode != "" {
 				p.lmode[i] = e.LMode
 			}
+			if e.LMode != "" {
+				p.rec.Put(M{"e": "LMode", "ep": i, "mode": e.LMode, "t": 0})
+			}
 			if e.LMode == "refuse" {
 				l.Close()
 				p.listeners[i] = nil
+			} else if e.LMode == "hang" {
+				l.Close()
+				p.listeners[i] = nil
+				p.startHang(i)
 			} else {
 				go p.acceptLoop(i, l)
 			}
@@ -154,6 +163,18 @@ func (p *player) doWrite(s ScStep) {
 		tdesc = "foreign"
 	}
 	var m message.Message = tagMsg(s.Tag, s.G)
+	if p.sc.Conf.ReuseMsgs && !s.Raw && s.Bad == "" {
+		// legal API use: the call has returned before the struct is touched again
+		p.mu.Lock()
+		rm := p.reuse[s.G]
+		if rm == nil {
+			rm = tagMsg(0, s.G)
+			p.reuse[s.G] = rm
+		}
+		p.mu.Unlock()
+		rm.TimeBootMs = uint32(s.Tag)
+		m = rm
+	}
 	if s.Raw {
 		if rw := mustRW(findDialect("common")).GetMessage(252); rw != nil {
 			m = rw.Write(m, p.sc.Conf.Version == 2)
@@ -514,6 +535,22 @@ func (p *player) step(s ScStep) {
 		l := p.listeners[s.Ep]
 		p.mu.Unlock()
 		p.rec.Put(M{"e": "LMode", "ep": s.Ep, "mode": s.Mode, "t": p.ms()})
+		if s.Mode != "hang" {
+			p.stopHang(s.Ep)
+		}
+		if s.Mode == "hang" {
+			if l != nil {
+				l.Close()
+				p.mu.Lock()
+				p.listeners[s.Ep] = nil
+				p.mu.Unlock()
+			}
+			p.startHang(s.Ep)
+			return
+		}
+		p.mu.Lock()
+		l = p.listeners[s.Ep]
+		p.mu.Unlock()
 		if s.Mode == "refuse" && l != nil {
 			l.Close()
 			p.mu.Lock()
@@ -555,6 +592,57 @@ func (p *player) step(s ScStep) {
 		case <-time.After(10 * time.Second):
 			p.rec.Put(M{"e": "Timeout", "what": "close_return", "t": p.ms()})
 		}
+	}
+}
+
+// startHang makes connection attempts to the endpoint's address hang: a listening socket with a backlog of one whose
+// accept queue is kept full never answers further SYNs (what a firewall or a dead server looks like to a dialer).
+func (p *player) startHang(ep int) {
+	addr, err := net.ResolveTCPAddr("tcp4", p.addrs[ep])
+	if err != nil {
+		return
+	}
+	fd, err := syscall.Socket(syscall.AF_INET, syscall.SOCK_STREAM, 0)
+	if err != nil {
+		p.rec.Put(M{"e": "Note", "what": "hang socket: " + err.Error()})
+		return
+	}
+	syscall.SetsockoptInt(fd, syscall.SOL_SOCKET, syscall.SO_REUSEADDR, 1) //nolint:errcheck
+	sa := &syscall.SockaddrInet4{Port: addr.Port}
+	copy(sa.Addr[:], addr.IP.To4())
+	if err := syscall.Bind(fd, sa); err != nil {
+		p.rec.Put(M{"e": "Note", "what": "hang bind: " + err.Error()})
+		syscall.Close(fd)
+		return
+	}
+	syscall.Listen(fd, 0) //nolint:errcheck
+	p.mu.Lock()
+	p.hangFds[ep] = fd
+	p.mu.Unlock()
+	// fill the accept queue
+	for i := 0; i < 3; i++ {
+		c, err := net.DialTimeout("tcp4", p.addrs[ep], 50*time.Millisecond)
+		if err == nil {
+			p.mu.Lock()
+			p.hangConns[ep] = append(p.hangConns[ep], c)
+			p.mu.Unlock()
+		}
+	}
+	p.rec.Put(M{"e": "LMode", "ep": ep, "mode": "hang", "t": p.ms()})
+}
+
+func (p *player) stopHang(ep int) {
+	p.mu.Lock()
+	fd, ok := p.hangFds[ep]
+	conns := p.hangConns[ep]
+	delete(p.hangFds, ep)
+	delete(p.hangConns, ep)
+	p.mu.Unlock()
+	for _, c := range conns {
+		c.Close()
+	}
+	if ok {
+		syscall.Close(fd)
 	}
 }
 
@@ -637,6 +725,9 @@ func (p *player) final(baseline int, evClosed bool) {
 		if l != nil {
 			l.Close()
 		}
+	}
+	for ep := range p.sc.Endpoints {
+		p.stopHang(ep)
 	}
 	// every connection the node accepted or dialled must have been released: the harness side sees its end
 	notReleased := 0
